@@ -190,6 +190,12 @@ structure Crypto.Laws (C : Crypto) : Prop where
       a sealed blob loads under no other store key -/
   ideal : ∀ sk sk' n pk pk', C.loadPk sk' (C.wrapPk sk n pk) = .ok pk' → sk' = sk
 
+/-- idealisations that turn "resolves to the same store key" into "is the same pass key":
+    Argon2i and base58 decoding are injective (collision-free) -/
+structure Crypto.Inj (C : Crypto) : Prop where
+  kdf_inj : ∀ l p p' s, C.kdf l p s = C.kdf l p' s → p = p'
+  raw_inj : ∀ s s' k, C.rawKey s = some k → C.rawKey s' = some k → s = s'
+
 /-- the random choices one call may make -/
 structure Rnd (C : Crypto) where
   salt : Bytes               -- `Level::generate_salt` (16 bytes)
